@@ -116,6 +116,24 @@ func runC04(r *fw.Run) {
 			rigFailure(r, "C04", err, names)
 			continue
 		}
+		// while the service is serving, registration attempts are refused - and a refused attempt must leave no trace in the
+		// routing: the names tried here (the later names of a two-step set, or one fresh name) are called in phase 0 and
+		// must get InterfaceNotFound without any dispatch
+		callNames := names
+		{
+			tryNames := later
+			if later == nil {
+				fresh := fmt.Sprintf("org.example.refused%d", k)
+				tryNames = []string{fresh}
+				callNames = append(append([]string{}, names...), fresh)
+			}
+			for _, n := range tryNames {
+				if err := g.Svc.RegisterInterface(&ScriptDisp{Name: n, Desc: defaultDesc(n), Log: g.Log}); err == nil {
+					r.Violation("C04 registration-while-serving-accepted", fmt.Sprintf("RegisterInterface(%q) on a serving service returned nil", n), names)
+				}
+				r.Count("refused_registration_attempts", 1)
+			}
+		}
 		for phase := 0; phase < 2; phase++ {
 			if phase == 1 {
 				if later == nil {
@@ -142,7 +160,7 @@ func runC04(r *fw.Run) {
 				for x := 0; x < nc; x++ {
 					tag++
 					// method strings are drawn from ALL names of the set, registered yet or not
-					cc.Conns = append(cc.Conns, c04Conn(rng, names, fmt.Sprintf("r%d", tag), nm))
+					cc.Conns = append(cc.Conns, c04Conn(rng, callNames, fmt.Sprintf("r%d", tag), nm))
 				}
 				r.Journal(0, cc)
 				c01Round(r, g, "C04", cc, true)
@@ -173,7 +191,7 @@ func replayC04(r *fw.Run, raw json.RawMessage) { replayRound(r, raw, "C04") }
 func init() {
 	fw.Register(&fw.Engine{
 		ID: "C04", Level: "exploration",
-		Rule: "a case = (set of 1..6 registered interface names drawn to be adversarial to each other: a.b / a.b.c / a.b.c.d / a.bc / A.b / a. / .a / a..b / near-misses of org.varlink.service / unicode / empty name; one connection of 10 (quick) or 20 (thorough) method strings: every registered name with .M, without method, with trailing/leading/doubled dots, with prefixes, suffixes, halves, case changes, one char more or less, unicode, NUL, 6000- and 20000-character names, org.varlink.service methods and near-misses; scripted / more / unscripted parameters), always followed by a GetInfo on the same connection (the connection must still be usable) and in a third of the cases by a frame that is not an object with a string method, followed by one more call that must never be dispatched. Oracle: the routing model written from the statement (split at the last '.', index <= 0 => InvalidParameter(method), org.varlink.service built in, exact table lookup, InterfaceNotFound otherwise): exactly the predicted reply per call, exactly the predicted dispatcher invocations (interface, method name, once), none for any other peer. distinct by hash of names+calls. Also: every third name set is registered in two steps on the same object (the later names are first called while unknown, then registered during a pause in serving, then called again); a third of the calls carry flag combinations; method strings with outer white space; frames without a method member right after a dispatched call.",
+		Rule: "a case = (set of 1..6 registered interface names drawn to be adversarial to each other: a.b / a.b.c / a.b.c.d / a.bc / A.b / a. / .a / a..b / near-misses of org.varlink.service / unicode / empty name; one connection of 10 (quick) or 20 (thorough) method strings: every registered name with .M, without method, with trailing/leading/doubled dots, with prefixes, suffixes, halves, case changes, one char more or less, unicode, NUL, 6000- and 20000-character names, org.varlink.service methods and near-misses; scripted / more / unscripted parameters), always followed by a GetInfo on the same connection (the connection must still be usable) and in a third of the cases by a frame that is not an object with a string method, followed by one more call that must never be dispatched. Oracle: the routing model written from the statement (split at the last '.', index <= 0 => InvalidParameter(method), org.varlink.service built in, exact table lookup, InterfaceNotFound otherwise): exactly the predicted reply per call, exactly the predicted dispatcher invocations (interface, method name, once), none for any other peer. distinct by hash of names+calls. Also: every third name set is registered in two steps on the same object (the later names are first called while unknown, then registered during a pause in serving, then called again); a third of the calls carry flag combinations; method strings with outer white space; frames without a method member right after a dispatched call; a registration attempt made while serving (refused) for names that are then called: InterfaceNotFound, no dispatch.",
 		Assumptions: []string{"interface names are compared as exact byte strings"},
 		Run:         runC04, Replay: replayC04, CrashIsViolation: true, MinEvals: 100,
 		QuickTimeout: 10 * time.Minute, ThoroughTimeout: 40 * time.Minute,
